@@ -955,7 +955,7 @@ Project valid_project(Rng &rng, bool thorough, unsigned macros, bool boundary) {
   Project p;
   p.has_ast = true;
   p.ast = generate_ast(rng, gp);
-  p.layout.seed = rng.next(); p.layout.style = rng.chance(2, 3) ? 0 : 1; p.layout.nfiles = rng.chance(1, 2) ? 1 : (int)rng.range(2, 4); p.layout.spelling = (int)rng.below(4); p.layout.naming = (p.layout.seed >> 9) % 4 == 0 ? 1 : 0;
+  p.layout.seed = rng.next(); p.layout.style = rng.chance(2, 3) ? 0 : 1; p.layout.nfiles = rng.chance(1, 2) ? 1 : (int)rng.range(2, 4); p.layout.spelling = (int)rng.below(4); p.layout.naming = (p.layout.seed >> 9) % 4 == 0 ? 1 : 0; p.layout.cut_defs = (p.layout.seed >> 27) % 2 == 0 ? 1 : 0;
   render(p);
   return p;
 }
